@@ -213,6 +213,121 @@ func TestC10Worker(t *testing.T) {
 		}
 	}
 	marker("END large")
+	// host objects of every kind, including the kinds the engine cannot
+	// represent: what it has to say about them is no reason to leave
+	// standard output
+	marker("BEGIN objects")
+	{
+		var objs []interface{}
+		odd := oddHostObjects()
+		oddNames := make([]string, 0, len(odd))
+		for n := range odd {
+			oddNames = append(oddNames, n)
+		}
+		sort.Strings(oddNames)
+		for _, n := range oddNames {
+			objs = append(objs, odd[n])
+		}
+		oddNames = oddNames[:0]
+		for n := range oddObjects {
+			if n != "deep-map" {
+				oddNames = append(oddNames, n)
+			}
+		}
+		sort.Strings(oddNames)
+		for _, n := range oddNames {
+			objs = append(objs, oddObjects[n]())
+		}
+		kindsOf := append(append(append([]string{}, eng.SupportedKinds...), eng.UnsupportedKinds...), eng.LossyKinds...)
+		for _, mode := range []string{"struct", "ptr", "map"} {
+			for i, k := range kindsOf {
+				var v lang.Value
+				switch eng.ValueKindFor(k) {
+				case lang.KInt:
+					v = lang.Int(int64(i) - 3)
+				case lang.KFloat:
+					v = lang.Float(1.5)
+				case lang.KString:
+					v = lang.Str("/etc/passwd")
+				case lang.KBool:
+					v = lang.Bool(true)
+				case lang.KArray:
+					v = lang.Array()
+					if i%2 == 0 {
+						switch k {
+						case "[]string", "[]interface":
+							v = lang.Array(lang.Str("/etc/hosts"))
+						case "[]bool":
+							v = lang.Array(lang.Bool(true))
+						case "[]float32", "[]float64":
+							v = lang.Array(lang.Float(2.5))
+						default:
+							v = lang.Array(lang.Int(7))
+						}
+					}
+				case lang.KHash:
+					v = lang.Hash(lang.Pair{K: lang.Str("/tmp/c10-probe-file"), V: lang.Int(1)})
+				}
+				spec := &eng.GoObjSpec{Mode: mode, Fields: []eng.GoField{{Name: "Name", Kind: "string", V: lang.Str("/etc/passwd")}, {Name: "Odd", Kind: k, V: v}}}
+				if o, err := spec.Build(); err == nil {
+					objs = append(objs, o)
+				}
+			}
+		}
+		self := map[string]interface{}{"Name": "/etc/passwd"}
+		self["Odd"] = self
+		objs = append(objs, self)
+		for i, o := range objs {
+			if i%20 == 0 {
+				marker(fmt.Sprintf("CALL objects %d", i))
+			}
+			for _, script := range []string{"return Name;", "return Odd;", "return type(Odd) + string(Odd);", "foreach v in Odd { print(v); } return len(Odd);", "return Missing;", "return 1;"} {
+				run(script, nil, o)
+			}
+		}
+	}
+	marker("END objects")
+	// operations at a call depth close to the limit: whatever the engine does
+	// only when memory or the stack run short happens here
+	marker("BEGIN depths")
+	for i, body := range []string{"len(1..10000)", "len(sort(1..2000))", "len(split(BigStr, \" \"))", "len([1, 2, [3, 4], {\"a\": 1}])", "len(sprintf(\"%s %d\", BigStr, 5))",
+		"len(BigStr + BigStr)", "len(keys({\"a\": 1, \"b\": 2}))", "len(reverse(1..2000))", "len(join(1..2000, \"/\"))", "len(upper(BigStr))", "BigStr ~= /passwd/", "hour(1700000000)", "len(getenv(\"HOME\"))"} {
+		marker(fmt.Sprintf("CALL depths %d", i))
+		for _, depth := range []int{100, 5000, 9990, 10100} {
+			run(fmt.Sprintf("function at(n) { if ( n <= 0 ) { return %s; } return at(n - 1); }\nreturn at(%d);", body, depth), nil, map[string]interface{}{"BigStr": strings.Repeat("/etc/passwd ", 300)})
+		}
+	}
+	marker("END depths")
+	// standard output that does not take what is written to it (a full disk
+	// behind a redirection): printing fails, it does not look for another
+	// place - neither then nor once output works again
+	full, fullErr := os.OpenFile("/dev/full", os.O_WRONLY, 0) // opened outside the audited window
+	marker("BEGIN outputfails")
+	if fullErr == nil {
+		printing := []string{`print("x", Name, "\n"); return 1;`, `printf("%s %d\n", Name, 3); return 1;`, `foreach k, v in {"a": 1} { print(k, v); } return Name;`,
+			`print(); printf(""); print([1, 2], {"a": 1}, 1.5, true); return 1;`, `function f(a) { print(a); return a; } return f(1) + f(2);`, `print(Name); return 7 % 0;`}
+		for round := 0; round < 2; round++ {
+			if err := syscall.Dup3(int(full.Fd()), 1, 0); err == nil {
+				marker("CALL outputfails failing")
+				for _, sc := range printing {
+					for _, dbg := range []map[string]lang.Value{nil, {"DEBUG": lang.Bool(true)}} {
+						run(sc, dbg, map[string]interface{}{"Name": "/etc/passwd", "Odd": uint8(1)})
+					}
+				}
+			}
+			_ = syscall.Dup3(int(devnull.Fd()), 1, 0)
+			marker("CALL outputfails restored")
+			for _, sc := range printing {
+				for _, dbg := range []map[string]lang.Value{nil, {"DEBUG": lang.Bool(true)}} {
+					run(sc, dbg, map[string]interface{}{"Name": "/etc/passwd", "Odd": uint8(1)})
+				}
+			}
+		}
+	}
+	marker("END outputfails")
+	if fullErr == nil {
+		full.Close()
+	}
 	// the time functions under several zones
 	marker("BEGIN zones")
 	for _, tz := range []string{"UTC", "Europe/Helsinki", "America/New_York", "Asia/Kolkata", "Nowhere/Invalid", "/etc/passwd", "../../etc/passwd", ""} {
@@ -472,7 +587,7 @@ func init() {
 
 func TestC10(t *testing.T) {
 	defer silenceAs("strace")()
-	col := evid.New("C10", "strace", "a worker process traced with 'strace -f' executes, between BEGIN/END markers, (1) EVERY function registered in the environment (names read through the hook, so a newly registered built-in is covered automatically) with EVERY tuple of argument types up to arity 3 (8+64+512 tuples per function) and values biased to paths, URLs, host:port pairs, commands and environment names, through Execute and Run; (2) the time functions under 8 TZ settings (valid, invalid, path-like, empty); (3) generated programs mixed with print/printf/getenv/now/sprintf/replace/split/match statements; oracle over the syscall log: no open/openat/creat with a write or create flag, no read-only open outside the time-zone database, no unlink/rename/mkdir/rmdir/chmod/truncate/link/chown/utime, no socket/connect/bind/send/recv, no execve/fork/vfork and no clone without CLONE_THREAD; (4) getenv of every name in the environment and of every name derived from one by the usual conventions (NAME_FILE -> NAME, NAME -> NAME_PATH, case changes), with path-, URL- and command-valued variables planted; (5) scripts run with the DEBUG and OPTIMIZE variables set to booleans and to path-like strings; inside the window every write must go to descriptor 1 (standard output is /dev/null in the worker), anything written elsewhere (standard error included) is a violation; clock/environment access is allowed; non-trivial = every call (each reached a built-in or ran a program); distinct by (function, argument-type tuple) and program")
+	col := evid.New("C10", "strace", "a worker process traced with 'strace -f' executes, between BEGIN/END markers, (1) EVERY function registered in the environment (names read through the hook, so a newly registered built-in is covered automatically) with EVERY tuple of argument types up to arity 3 (8+64+512 tuples per function) and values biased to paths, URLs, host:port pairs, commands and environment names, through Execute and Run; (2) the time functions under 8 TZ settings (valid, invalid, path-like, empty); (3) generated programs mixed with print/printf/getenv/now/sprintf/replace/split/match statements; oracle over the syscall log: no open/openat/creat with a write or create flag, no read-only open outside the time-zone database, no unlink/rename/mkdir/rmdir/chmod/truncate/link/chown/utime, no socket/connect/bind/send/recv, no execve/fork/vfork and no clone without CLONE_THREAD; (4) getenv of every name in the environment and of every name derived from one by the usual conventions (NAME_FILE -> NAME, NAME -> NAME_PATH, case changes), with path-, URL- and command-valued variables planted; (5) scripts run with the DEBUG and OPTIMIZE variables set to booleans and to path-like strings; (6) host objects of every supported, unsupported and lossy field kind (struct, pointer, map), non-struct, nil, cyclic and otherwise odd objects; (7) ranges, sorts, splits, formats, concatenations, matches and environment reads made at call depths 100, 5000, 9990 and beyond the limit; (8) printing while standard output refuses every write (/dev/full behind descriptor 1) and after it works again, with and without DEBUG; inside the window every write must go to descriptor 1 (standard output is /dev/null in the worker), anything written elsewhere (standard error included) is a violation; clock/environment access is allowed; non-trivial = every call (each reached a built-in or ran a program); distinct by (function, argument-type tuple) and program")
 	defer col.Flush()
 	replayKnown(t, col, "C10")
 	c, inside, markers, err := runStrace()
